@@ -34,16 +34,29 @@ def default_dims(nd):
     return ["x", "y", "z"][:nd] if nd <= 3 else [f"x{i}" for i in range(nd)]
 
 
-def gen_src(rng, exact=True, nd=None, nmax=6):
+INT_CELLS = [F(1, 2), F(1, 2), F(1, 4), F(3, 2), F(5, 2), F(3, 4), F(1), F(2)]
+
+
+def gen_src(rng, exact=True, nd=None, nmax=6, typed=False):
+    """typed=True: integer-valued corners handed over as Python ints / numpy int64 (region.pmin.dtype is
+    int64), mostly fractional cells, n / corners in various container and scalar types"""
     nd = nd or rng.choice([1, 1, 2, 2, 2, 3, 3, 3, 4])
     while True:
-        n = [rng.randint(1, nmax) for _ in range(nd)]
+        if typed:
+            cs = [rng.choice(INT_CELLS) for _ in range(nd)]
+            n = [c.denominator * rng.randint(1, max(1, nmax // c.denominator)) for c in cs]
+        else:
+            n = [rng.randint(1, nmax) for _ in range(nd)]
         if math.prod(n) <= MAXCELLS:
             break
     lo, hi, cells = [], [], []
     sc = 1.0 if exact else rng.choice([1e-9, 1e-9, 1e-6, 1e-3, 1.0, 1.0, 1e3])
-    for k in n:
-        if exact:
+    for a_, k in enumerate(n):
+        if typed:
+            l = F(rng.randint(-6, 6))
+            lo.append(l)
+            hi.append(l + k * cs[a_])
+        elif exact:
             c = F(rng.choice([1, 1, 3, 5, 7]), 2 ** rng.randint(0, 3))
             l = F(rng.randint(-128, 128), 8)
             lo.append(l)
@@ -84,8 +97,15 @@ def gen_src(rng, exact=True, nd=None, nmax=6):
         vals = [[v + F(rng.randint(0, 3), 4) for v in row] for row in vals]
     pm = rng.choice([0.0, 0.2, 0.5])
     valid = [rng.random() >= pm for _ in range(ncell)]
+    ty = dict(corner="float", ntype="list", by="n", subcorner="float", vdtype="float")
+    if typed:
+        ty = dict(corner=rng.choice(["int", "int", "npint", "mixed"]), ntype=rng.choice(["list", "tuple", "nparray", "npscalars"]),
+                  by=rng.choice(["n", "n", "cell", "cellint"]), subcorner=rng.choice(["int", "npint", "float"]),
+                  vdtype=rng.choice(["float", "int"]))
+        if nd == 1 and rng.random() < 0.5:
+            ty.update(corner="scalar", ntype=rng.choice(["scalar", "list"]), by=rng.choice(["n", "cellscalar"]))
     return dict(exact=exact, p1=[S(x) for x in p1], p2=[S(x) for x in p2], n=n, tf=S(tf), dims=dims,
-                subs=subs, nvdim=nvdim, vals=[[S(v) for v in row] for row in vals], valid=valid)
+                subs=subs, nvdim=nvdim, vals=[[S(v) for v in row] for row in vals], valid=valid, ty=ty)
 
 
 def geom(s):
@@ -95,12 +115,60 @@ def geom(s):
     return lo, hi, [(h - l) / k for l, h, k in zip(lo, hi, s["n"])]
 
 
+def typed_seq(xs, how):
+    """hand the exact rationals xs to the library as the requested Python / numpy types (integer types
+    only where every entry is integral)"""
+    fr = [F(x) for x in xs]
+    integral = all(x.denominator == 1 for x in fr)
+    if how == "scalar" and len(fr) == 1:          # one-dimensional meshes accept bare numbers
+        return int(fr[0]) if integral else float(fr[0])
+    if how == "int" and integral:
+        return [int(x) for x in fr]
+    if how == "npint" and integral:
+        return np.array([int(x) for x in fr], dtype=np.int64)
+    if how == "mixed":
+        return [int(x) if (x.denominator == 1 and i % 2 == 0) else float(x) for i, x in enumerate(fr)]
+    if how == "npfloat":
+        return np.array([float(x) for x in fr], dtype=np.float64)
+    if how == "tuple":
+        return tuple(float(x) for x in fr)
+    return [float(x) for x in fr]
+
+
+def typed_scalar(x, how):
+    x = F(x)
+    if how == "int" and x.denominator == 1:
+        return int(x)
+    if how == "npint" and x.denominator == 1:
+        return np.int64(int(x))
+    if how == "npfloat":
+        return np.float64(float(x))
+    if how == "npfloat32" and F(float(np.float32(float(x)))) == x:
+        return np.float32(float(x))
+    return float(x)
+
+
 def build(s):
-    region = df.Region(p1=fls(s["p1"]), p2=fls(s["p2"]), dims=s["dims"], tolerance_factor=fl(s["tf"]))
-    subregions = {name: df.Region(p1=fls(a), p2=fls(b)) for name, a, b in s["subs"]}
-    mesh = df.Mesh(region=region, n=s["n"], subregions=subregions)
-    arr = np.array([[fl(v) for v in row] for row in s["vals"]], dtype=float).reshape(*s["n"], s["nvdim"])
-    valid = np.array(s["valid"], dtype=bool).reshape(*s["n"])
+    ty = s.get("ty") or dict(corner="float", ntype="list", by="n", subcorner="float", vdtype="float")
+    region = df.Region(p1=typed_seq(s["p1"], ty["corner"]), p2=typed_seq(s["p2"], ty["corner"]),
+                       dims=s["dims"], tolerance_factor=fl(s["tf"]))
+    subregions = {name: df.Region(p1=typed_seq(a, ty["subcorner"]), p2=typed_seq(b, ty["subcorner"]))
+                  for name, a, b in s["subs"]}
+    n = s["n"]
+    if ty["by"] in ("cell", "cellint", "cellscalar"):
+        _, _, cell = geom(s)
+        mesh = df.Mesh(region=region, subregions=subregions,
+                       cell=typed_seq(cell, {"cell": "float", "cellint": "int", "cellscalar": "scalar"}[ty["by"]]))
+    else:
+        nn = {"list": list(n), "tuple": tuple(n), "nparray": np.array(n), "scalar": n[0],
+              "npscalars": [np.int64(k) for k in n]}[ty["ntype"]]
+        mesh = df.Mesh(region=region, n=nn, subregions=subregions)
+    vals = [[F(v) for v in row] for row in s["vals"]]
+    if ty["vdtype"] == "int" and all(v.denominator == 1 for row in vals for v in row):
+        arr = np.array([[int(v) for v in row] for row in vals], dtype=np.int64).reshape(*n, s["nvdim"])
+    else:
+        arr = np.array([[float(v) for v in row] for row in vals], dtype=float).reshape(*n, s["nvdim"])
+    valid = np.array(s["valid"], dtype=bool).reshape(*n)
     return df.Field(mesh, nvdim=s["nvdim"], value=arr, valid=valid)
 
 
@@ -117,6 +185,9 @@ def coord_classes(rng, s, a):
            ("face-", lo[a] + j * cell[a] - cell[a] / 1024),
            ("pmin", lo[a]), ("pmax", hi[a]),
            ("interior", lo[a] + F(rng.randint(1, 1023), 1024) * (hi[a] - lo[a])),
+           ("frac", lo[a] + (jc + rng.choice([F(3, 4), F(7, 8), F(1, 4), F(5, 8)])) * cell[a]),
+           ("integer", F(rng.randint(math.ceil(lo[a]), math.floor(hi[a])))
+            if math.ceil(lo[a]) <= math.floor(hi[a]) else lo[a]),
            ("pmin-tiny", lo[a] - (hi[a] - lo[a]) * F(s["tf"]) / 4),
            ("pmax+tiny", hi[a] + (hi[a] - lo[a]) * F(s["tf"]) / 4),
            ("below", lo[a] - cell[a] * rng.choice([F(1, 2), 1, 3])),
@@ -133,12 +204,14 @@ def gen_sel(rng, s, tier):
         cls = coord_classes(rng, s, a)
         cases.append(dict(kind="sel", src=s, a=a, arg=dict(t="centre"), cls="centre-default"))
         k = 3 if tier == "quick" else 6
+        xts = ["float", "float", "int", "npint", "npfloat", "npfloat32"]
         for c, x in rng.sample(cls, min(k, len(cls))):
-            cases.append(dict(kind="sel", src=s, a=a, arg=dict(t="point", x=S(x)), cls="pt-" + c))
+            cases.append(dict(kind="sel", src=s, a=a, arg=dict(t="point", x=S(x), xt=rng.choice(xts)), cls="pt-" + c))
         for _ in range(k):
             (c1, x1), (c2, x2) = rng.choice(cls), rng.choice(cls)
             cases.append(dict(kind="sel", src=s, a=a, cls=f"rg-{c1}-{c2}",
-                              arg=dict(t="range", x1=S(x1), x2=S(x2), form=rng.choice(["tuple", "list", "array"]))))
+                              arg=dict(t="range", x1=S(x1), x2=S(x2), xt=rng.choice(xts), xt2=rng.choice(xts),
+                                       form=rng.choice(["tuple", "list", "array", "intarray"]))))
     if rng.random() < 0.3:
         cases.append(dict(kind="sel", src=s, a=nd, arg=dict(t="centre"), cls="unknown-dim"))
         cases.append(dict(kind="sel", src=s, a=nd + 1, arg=dict(t="point", x=S(0)), cls="unknown-dim"))
@@ -187,6 +260,12 @@ def gen_boxes(rng, s, count):
                 if rng.random() < 0.5:
                     q1[a], q2[a] = q2[a], q1[a]
         out.append((cls, [S(x) for x in q1], [S(x) for x in q2]))
+    if all(x.denominator == 1 for x in lo + hi):
+        # boxes on integer coordinates (vertex-aligned or not, depending on the cell size)
+        for _ in range(max(1, count // 2)):
+            q1 = [F(rng.randint(int(l), int(h) - 1)) for l, h in zip(lo, hi)]
+            q2 = [F(rng.randint(int(x) + 1, int(h))) for x, h in zip(q1, hi)]
+            out.append(("intbox", [S(x) for x in q1], [S(x) for x in q2]))
     return out
 
 
@@ -195,15 +274,16 @@ def gen_ops(rng, s, tier):
     n = s["n"]
     cases = gen_sel(rng, s, tier)
     kb = 5 if tier == "quick" else 10
+    qts = ["float", "float", "int", "npint", "mixed", "npfloat", "tuple"]
     for cls, q1, q2 in gen_boxes(rng, s, kb):
-        cases.append(dict(kind="getregion", src=s, q1=q1, q2=q2, cls=cls))
+        cases.append(dict(kind="getregion", src=s, q1=q1, q2=q2, cls=cls, qt=rng.choice(qts)))
     for name, _, _ in s["subs"]:
         cases.append(dict(kind="getname", src=s, name=name, cls="present"))
     if rng.random() < 0.5:
         cases.append(dict(kind="getname", src=s, name="nosuch", cls="missing"))
     for cls, q1, q2 in gen_boxes(rng, s, kb):
         if cls in ("aligned", "whole", "out", "partly-out"):
-            cases.append(dict(kind="slices", src=s, q1=q1, q2=q2, cls=cls))
+            cases.append(dict(kind="slices", src=s, q1=q1, q2=q2, cls=cls, qt=rng.choice(qts)))
     for name, a, b in s["subs"][:2]:
         cases.append(dict(kind="slices", src=s, q1=a, q2=b, cls="subregion"))
     for _ in range(3 if tier == "quick" else 6):
@@ -224,7 +304,8 @@ def gen_ops(rng, s, tier):
             cls = "negative"
         elif r < 0.14:
             cls = "unknown-dim"
-        cases.append(dict(kind="pad", src=s, pw=pw, axes=sorted(axes), mode=md, cls=cls))
+        cases.append(dict(kind="pad", src=s, pw=pw, axes=sorted(axes), mode=md, cls=cls,
+                          wt=rng.choice(["tuple", "list", "npint", "nparray"])))
     for _ in range(3 if tier == "quick" else 6):
         nn = [rng.randint(1, 9) for _ in range(nd)]
         if math.prod(nn) > 2 * MAXCELLS:
@@ -243,7 +324,7 @@ def gen_ops(rng, s, tier):
         elif r < 0.4:
             nn = list(n)
             cls = "same"
-        cases.append(dict(kind="resample", src=s, nn=nn, cls=cls))
+        cases.append(dict(kind="resample", src=s, nn=nn, cls=cls, nt=rng.choice(["tuple", "list", "nparray", "npscalars"])))
     return cases
 
 
@@ -301,6 +382,10 @@ def generate(rng, tier):
     cases = []
     for k in range(nf):
         s = gen_src(rng, exact=True, nd=(k % 4) + 1 if k < 8 else None, nmax=6 if tier == "quick" else 8)
+        cases += gen_ops(rng, s, tier)
+    # integer-typed corners (region.pmin.dtype == int64), fractional cells, typed n / cell / coordinates
+    for k in range(max(8, nf // 2)):
+        s = gen_src(rng, exact=True, nd=(k % 3) + 1 if k < 6 else None, nmax=6 if tier == "quick" else 8, typed=True)
         cases += gen_ops(rng, s, tier)
     for k in range(nf // 2):
         cases += gen_scale(rng, tier)
@@ -483,12 +568,16 @@ def run_case(c):
             call_m = lambda: mesh.sel(dim)   # noqa: E731
             call_f = lambda: f.sel(dim)      # noqa: E731
         elif arg["t"] == "point":
-            x = fl(arg["x"])
+            x = typed_scalar(arg["x"], arg.get("xt", "float"))
             call_m = lambda: mesh.sel(**{dim: x})   # noqa: E731
             call_f = lambda: f.sel(**{dim: x})      # noqa: E731
         else:
-            x1, x2 = fl(arg["x1"]), fl(arg["x2"])
-            v = {"tuple": (x1, x2), "list": [x1, x2], "array": np.array([x1, x2])}[arg["form"]]
+            x1, x2 = typed_scalar(arg["x1"], arg.get("xt", "float")), typed_scalar(arg["x2"], arg.get("xt2", "float"))
+            form = arg["form"]
+            if form == "intarray":
+                v = typed_seq([arg["x1"], arg["x2"]], "npint")     # int64 array where both ends are integral
+            else:
+                v = {"tuple": (x1, x2), "list": [x1, x2], "array": np.array([float(x1), float(x2)])}[form]
             call_m = lambda: mesh.sel(**{dim: v})   # noqa: E731
             call_f = lambda: f.sel(**{dim: v})      # noqa: E731
         stm, rm = attempt(call_m)
@@ -583,6 +672,7 @@ def run_case(c):
             if stm == "ok" or stf == "ok":
                 rec["oracle"].append("unknown-axis-accepted")
         rec["oracle"] = sorted(set(rec["oracle"]))
+        # (float32 coordinates on integer-cornered meshes were truncated until the fix: commit in /repo; ordinary cases now)
         rec.update(obs=obs, coq=f'CSel {src_coq(s)} {g.nat(a)} {arg_coq(arg)} {opt(om, obsmesh_coq)} {opt(of, obsfield_coq)}',
                    key=f'sel/{nd}/{arg["t"]}/{c["cls"]}/{stm}{stf}/{a}', size=size)
         return rec
@@ -591,7 +681,7 @@ def run_case(c):
         q1, q2 = [F(x) for x in c["q1"]], [F(x) for x in c["q2"]]
         blo = [min(x, y) for x, y in zip(q1, q2)]
         bhi = [max(x, y) for x, y in zip(q1, q2)]
-        item = df.Region(p1=fls(c["q1"]), p2=fls(c["q2"]))
+        item = df.Region(p1=typed_seq(c["q1"], c.get("qt", "float")), p2=typed_seq(c["q2"], c.get("qt", "float")))
         inside = all(l <= x and y <= h for l, h, x, y in zip(lo, hi, blo, bhi))
         outside = any(clearly_outside(s, a, blo[a]) or clearly_outside(s, a, bhi[a]) for a in range(nd))
         i_lo = [math.floor((x - l) / cc) for x, l, cc in zip(blo, lo, cell)]
@@ -669,7 +759,10 @@ def run_case(c):
 
     if kind == "pad":
         pw, md = c["pw"], c["mode"]
-        d = {s["dims"][a]: tuple(pw[a]) for a in c["axes"]}
+        wt = c.get("wt", "tuple")
+        conv = {"tuple": tuple, "list": list, "npint": lambda w: (np.int64(w[0]), np.int64(w[1])),
+                "nparray": lambda w: np.array(w)}[wt]
+        d = {s["dims"][a]: conv(pw[a]) for a in c["axes"]}
         if c["cls"] == "unknown-dim":
             d["qq"] = (1, 1)
         stm, rm = attempt(lambda: mesh.pad(d))
@@ -718,7 +811,10 @@ def run_case(c):
 
     if kind == "resample":
         nn = c["nn"]
-        stf, rf = attempt(lambda: f.resample(tuple(nn)))
+        nt = c.get("nt", "tuple")
+        nn_arg = {"tuple": tuple(nn), "list": list(nn), "nparray": np.array(nn),
+                  "npscalars": tuple(np.int64(k) for k in nn)}[nt]
+        stf, rf = attempt(lambda: f.resample(nn_arg))
         of = field_obs(rf) if stf == "ok" else None
         wellformed = len(nn) == nd and all(k > 0 for k in nn)
         if wellformed and stf != "ok":
